@@ -164,9 +164,28 @@ func body(c *explore.Chooser) *explore.Case {
 	}
 	writeState(removed)
 	repo.Commit("remove rest")
+	// the base branch may move on after the fork (the branch is not rebased): it removes the same rules itself, or
+	// it adds a provider of its own to a file the branch touches. Removal is judged against the fork point, so
+	// neither changes what the branch removed.
+	mainMoves := 0
+	if extra == 0 || tier == "thorough" { // quick: only without an extra provider
+		mainMoves = c.Free(3, "base-branch-after-fork")
+	}
+	mainName := []string{"unchanged", "removes the same rules", "adds a recording rule to the first file"}[mainMoves]
+	if mainMoves > 0 {
+		repo.Checkout("main", false)
+		switch mainMoves {
+		case 1:
+			writeState(removed)
+		case 2:
+			repo.Write("rules/one.yml", render(append(append([]urule{}, all["rules/one.yml"]...), urule{kind: "recording", name: "main:only", expr: "vector(2)"})))
+		}
+		repo.Commit("main moves on")
+		repo.Checkout("feature", false)
+	}
 
-	input := map[string]any{"rules": describe(uni), "removed": removedIDs, "two_commits": split == 1, "extra": extraName}
-	cs := &explore.Case{Input: input, Key: fmt.Sprint(describe(uni), removedIDs, split, extraTop)}
+	input := map[string]any{"rules": describe(uni), "removed": removedIDs, "two_commits": split == 1, "extra": extraName, "base_branch_after_fork": mainName}
+	cs := &explore.Case{Input: input, Key: fmt.Sprint(describe(uni), removedIDs, split, extraTop, mainMoves)}
 	if err := os.Chdir(dir); err != nil {
 		panic(err)
 	}
@@ -310,7 +329,7 @@ var tier string
 func main() {
 	explore.Main(&explore.Config{
 		Property: "C20", Level: "exploration",
-		Rule:        "rule universe: recording provider A and alert D in file one, three consumers (two alerts, one recording rule) in files one/two whose expressions range over {no reference, sum(A), ALERTS{alertname=\"D\"}, an expression with several ALERTS and metric selectors where the interesting one is not first} (thorough adds A, ALERTS_FOR_STATE, both, a regexp alertname matcher, rate+absent), optionally a second provider A or an alert named A (thorough: also a second alert D) in the other file; x every non-empty subset of rules removed on the branch (files vanish when emptied) (thorough: x removal in one or two commits); real git repository, real finders, real rule/dependency check under the ci command; compared with the generator's reference dependency graph: warning iff dependants remain and no same-kind same-name replacement remains, and the listed dependants are exactly the dependants",
+		Rule:        "rule universe: recording provider A and alert D in file one, three consumers (two alerts, one recording rule) in files one/two whose expressions range over {no reference, sum(A), ALERTS{alertname=\"D\"}, an expression with several ALERTS and metric selectors where the interesting one is not first} (thorough adds A, ALERTS_FOR_STATE, both, a regexp alertname matcher, rate+absent), optionally a second provider A or an alert named A (thorough: also a second alert D) in the other file; x every non-empty subset of rules removed on the branch (files vanish when emptied) (thorough: x removal in one or two commits); real git repository, real finders, real rule/dependency check under the ci command; compared with the generator's reference dependency graph: warning iff dependants remain and no same-kind same-name replacement remains, and the listed dependants are exactly the dependants; the base branch may move on after the fork (removing the same rules itself, or adding a rule to the first file; quick: only without an extra provider)",
 		Assumptions: []string{"alertname=~ selectors are a permissive cell: pint counts equality matchers only, the property speaks of selecting 'with its alertname'", "default configuration, offline"},
 		Spaces: []*explore.Space{{Name: "removals", Body: body, Bound: func(string) int { return -1 }, Setup: func(t string) {
 			tier = t
